@@ -324,3 +324,132 @@ def _enclosing_loop(node, fn):
         if isinstance(p, (ast.For, ast.While)):
             return p
     return None
+
+
+ALLOWED_STORE_METHODS = {'nodes', 'edges', 'remove_node', 'add_edge'}
+WHOLE_STORE_OPS = {'clear', 'remove_nodes_from', 'remove_edges_from', 'add_nodes_from', 'add_edges_from', 'update',
+                   'clear_edges', 'add_node'}
+READ_ONLY_FUNCS = {'search_nodes'}
+
+
+def _alias_written(fn, name):
+    for n in walk_no_nested(fn):
+        if isinstance(n, ast.Subscript) and isinstance(n.value, ast.Name) and n.value.id == name and isinstance(n.ctx, ast.Store):
+            return True
+        if isinstance(n, ast.Call) and isinstance(n.func, ast.Attribute) and isinstance(n.func.value, ast.Name) and \
+                n.func.value.id == name and n.func.attr in ('update', 'pop', 'clear', 'setdefault', 'popitem'):
+            return True
+    return False
+
+
+
+def check_store_scoping(prog, rep, r_enum, r_write, r_whole):
+    """Every enumeration over the shared store carries a GraphID conjunct on the right id; every write through the store
+    graph addresses nodes by internal ids that come from a scoped lookup; whole-store operations stay in the storage classes."""
+    storage_classes = {storage_class(prog, SHARED_SHELL), storage_class(prog, DISJ_SHELL)}
+
+    for modname in GRAPH_MODULES:
+        mod = prog.module(modname)
+        for m, cls, fn in prog.all_functions():
+            if m is not mod:
+                continue
+            fq = (cls.name + '.' if cls else '') + fn.name
+            if cls is not None:
+                fn = method(prog, cls, fn)
+            aliases = store_graph_aliases(fn)
+            in_storage = cls in storage_classes
+            # ---- R1 ----
+            for call in search_calls(fn):
+                if len(call.args) < 2:
+                    raise AnalysisError(f'{loc(mod, call)}: search_nodes without query')
+                target = call.args[0]
+                if not is_store_graph_expr(target, aliases):
+                    # queries over a private copy are not store enumerations -- unless we are inside the storage class,
+                    # where the existing-graph lookup must look at the store itself
+                    if in_storage:
+                        rep.instance(r_enum, f'{fq}: {norm(call, 100)}')
+                        rep.violation(r_enum, loc(mod, call), fq, norm(call, 120),
+                                      f'the storage class looks for the nodes of a graph id in {norm(target)} instead of the '
+                                      f'store: an already stored graph with that id is not found (and not replaced)')
+                    continue
+                conj = parse_query(prog, call.args[1], mod, cls)
+                gid = [v for op, f, v in conj if op == 'eq' and f == 'GraphID']
+                rep.instance(r_enum, f'{fq}: {norm(call.args[1], 110)}')
+                if not gid:
+                    rep.violation(r_enum, loc(mod, call), fq, norm(call.args[1], 140),
+                                  'this enumeration over the shared store has no GraphID conjunct: it sees (and the caller may '
+                                  'then touch) nodes of every graph in the store')
+                    continue
+                vtxt = ast.unparse(gid[0])
+                params = {a.arg for a in fn.args.args + fn.args.kwonlyargs}
+
+                def is_gid(e):
+                    if isinstance(e, ast.IfExp):
+                        return is_gid(e.body) and is_gid(e.orelse)
+                    t = ast.unparse(e)
+                    return t == 'self.graph_id' or (t in params and 'graph_id' in t) or t.endswith('.graph_id')
+                alts = [gid[0]]
+                if isinstance(gid[0], ast.Name) and gid[0].id not in params:
+                    alts = flow.reaching_values(fn, gid[0].id) or [gid[0]]
+                ok = all(is_gid(a) for a in alts)
+                if not ok:
+                    rep.violation(r_enum, loc(mod, call), fq, norm(call.args[1], 140),
+                                  f'the GraphID conjunct compares with {vtxt}, which is not the graph id of this handle / call')
+            # ---- R2 / R5 ----
+            if in_storage:
+                continue
+            scoped, _ = scoped_id_sources(prog, fn, mod, cls)
+            for n in walk_no_nested(fn):
+                # method calls on the store graph
+                if isinstance(n, ast.Call) and isinstance(n.func, ast.Attribute) and is_store_graph_expr(n.func.value, aliases):
+                    meth = n.func.attr
+                    if meth == 'get_graph':
+                        continue
+                    rep.instance(r_write, f'{fq}: {norm(n, 100)}')
+                    if meth in ('remove_node',):
+                        if not (n.args and id_expr_is_scoped(n.args[0], scoped)):
+                            rep.violation(r_write, loc(mod, n), fq, norm(n, 120), 'node removed by an internal id that is not the result of a scoped lookup')
+                    elif meth == 'add_edge':
+                        if not (len(n.args) >= 2 and id_expr_is_scoped(n.args[0], scoped) and id_expr_is_scoped(n.args[1], scoped)):
+                            rep.violation(r_write, loc(mod, n), fq, norm(n, 120), 'edge added between internal ids that are not results of scoped lookups')
+                    elif meth in WHOLE_STORE_OPS:
+                        rep.violation(r_whole, loc(mod, n), fq, norm(n, 120),
+                                      f'{meth}() is applied to the shared store graph outside the storage classes')
+                    elif meth in ('neighbors', 'subgraph', 'copy', 'number_of_nodes', 'has_node', 'has_edge', 'degree'):
+                        pass
+                    else:
+                        rep.violation(r_write, loc(mod, n), fq, norm(n, 120), f'unrecognised operation {meth}() on the shared store graph')
+                # the store graph passed as an argument
+                if isinstance(n, ast.Call) and not (isinstance(n.func, ast.Attribute) and is_store_graph_expr(n.func.value, aliases)):
+                    for a in list(n.args) + [k.value for k in n.keywords]:
+                        if is_store_graph_expr(a, aliases):
+                            cn = call_name(n)
+                            rep.instance(r_write, f'{fq}: store graph passed to {cn}()')
+                            if cn in READ_ONLY_FUNCS or cn in ('list', 'len'):
+                                continue
+                            if cn == 'contracted_nodes' and fn.name == 'merge_nodes':
+                                ids = n.args[1:3]
+                                if len(ids) == 2 and all(id_expr_is_scoped(x, scoped) for x in ids):
+                                    continue
+                            rep.violation(r_write, loc(mod, n), fq, norm(n, 130),
+                                          f'the shared store graph (all graphs) is handed to {cn}(): whatever it changes is '
+                                          f'changed on the nodes of every graph in the store, not only on this graph')
+                # subscripted access .nodes[X] / .edges[X] on the store graph that is written through
+                if isinstance(n, ast.Subscript) and isinstance(n.value, ast.Attribute) and n.value.attr in ('nodes', 'edges') \
+                        and is_store_graph_expr(n.value.value, aliases):
+                    par = getattr(n, '_parent', None)
+                    written = False
+                    if isinstance(par, ast.Subscript) and isinstance(par.ctx, ast.Store):
+                        written = True
+                    if isinstance(par, ast.Attribute) and par.attr in ('update', 'pop', 'clear', 'setdefault', 'popitem'):
+                        written = True
+                    if isinstance(par, ast.Assign) and par.value is n:
+                        # alias of the live attribute dict (node_props = ...nodes[x]) -> written through later
+                        written = any(isinstance(t, ast.Name) for t in par.targets) and _alias_written(fn, par.targets[0].id)
+                    if written:
+                        rep.instance(r_write, f'{fq}: write through {norm(n, 90)}')
+                        if not id_expr_is_scoped(n.slice, scoped):
+                            rep.violation(r_write, loc(mod, n), fq, norm(n, 120),
+                                          'a node/edge attribute dictionary of the shared store is written through an internal '
+                                          'id that does not come from a GraphID-scoped lookup')
+
